@@ -46,8 +46,11 @@
         the value computed from the earlier reads (NOTIFIED_TIME under note_mu, then nsync_time_now) is still a correct
         answer at the linearization point.  Absent: the interleavings in which another thread acts between those reads.
    (A4) every critical section under note_mu / counter_mu / the cv spinlock is one step (the locks' mutual exclusion is C01);
-        the sleeps inside those nsync_mu_lock calls use the SAME per-thread semaphore as nsync_wait_n: their late posts are the
-        environment step OpStale.
+        the sleeps inside those nsync_mu_lock calls use the SAME per-thread semaphore as nsync_wait_n only in the FIRST ready_time
+        loop: once nsync_wait_n has taken the thread's waiter (nsync_waiter_new_: IN_USE), a contended note_mu / counter_mu lock
+        inside an enqueue / ready_time / dequeue callback takes a SECOND waiter struct (free list or malloc), whose late post lands
+        on a semaphore some thread may pick up later (fifth review).  Either way the late posts are the environment step OpStale:
+        every sleeper re-checks its `waiting` flag after each P.
    (A5) the caller's semaphore is a counter: P's futex protocol is SemModel's (C12).  nsync_waiter_new_/free_ and malloc are
         not modelled beyond the PFree step (malloc never fails here; wait.c does not check its result -- DESIGN, C11 "Limits").
    (A6) p_nw->sem: every record's `sem` field is written once (wait.c:52) with the address of its owner's semaphore, so the
